@@ -746,8 +746,9 @@ pub fn with_zoo<'a, R>(z: usize, v: impl ZooVisitor<'a, R>) -> R {
         1 => v.visit(zoo::pratt),
         2 => v.visit(zoo::rx),
         3 => v.visit(zoo::valid),
-        4 => v.visit(zoo::list),
-        5 => v.visit(zoo::arith),
+        4 => v.visit(zoo::rx2),
+        5 => v.visit(zoo::list),
+        6 => v.visit(zoo::arith),
         _ => v.visit(zoo::sexp),
     }
 }
